@@ -310,8 +310,8 @@ def _check(prop, tier, seed, scr, t0):
         for t in trouble:
             log("dsim: " + t)
         return 2
-    if agg["runs"] == 0 or len(agg["inconclusive"]) > agg["runs"] // 2:
-        die2("too many inconclusive runs: not a verdict")
+    if agg["runs"] == 0 or agg["inconclusive"]:
+        die2("%d run(s) could not be judged (budget exhausted / lost control): not a verdict" % len(agg["inconclusive"]))
     return 0
 
 
